@@ -1,5 +1,113 @@
-(* C02: the production plan must return what the literal semantics (Model/Traversal.v) returns. *)
-From Grip Require Export Run.Eval_C01.
-From Coq Require Import List. Import ListNotations.
-Definition known_classes (cs : list c01_case) : list nat := [].
-Definition explain (c : c01_case) := Eval_C01.explain c.
+(* C02: the production plan must return what the literal semantics (Model/Traversal.v) returns.
+   Two kinds of cases:
+     CRows: a program run through the production compiler on a store; its rows against the literal semantics;
+     CPlan: the statement list core.IndexStartOptimize returned for a program; it must be the list
+            Model/Optimize.v computes (correspondence of the planner model), and -- searched on the case's
+            graph when it is not -- it must mean the same as the program (the plan evaluated in the model);
+     CLoad: what inspect.PipelineSteps and inspect.PipelineStepOutputs returned for a program; they must be
+            what Model/LoadPlan.v computes, and the observed outputs must cover every read (reads_covered). *)
+From Grip Require Export Run.Eval_C01 Model.Optimize Model.LoadPlan.
+From Coq Require Import List ZArith QArith String Bool NArith. Import ListNotations.
+Local Close Scope Q_scope.
+
+Inductive c02_case :=
+| CRows (c : c01_case)
+| CPlan (g : graph) (p : list stmt) (o : list ostmt)
+| CLoad (p : list stmt) (steps : list nat) (outs : outmap)    (* inspect.PipelineSteps / PipelineStepOutputs as observed *)
+| CLoadPlan (p : list stmt) (steps : list nat) (outs : outmap). (* the same tables for IndexStartOptimize(p), as the compiler computes them *)
+
+(* ---------- structural equality of statements ---------- *)
+Fixpoint list_eqb {X} (e : X -> X -> bool) (a b : list X) : bool :=
+  match a, b with [], [] => true | x :: r, y :: r' => e x y && list_eqb e r r' | _, _ => false end.
+Definition strs_eqb := list_eqb String.eqb.
+Definition cop_idx (c : cop) : nat :=
+  match c with CEq => 0 | CNeq => 1 | CGt => 2 | CGte => 3 | CLt => 4 | CLte => 5 | CInside => 6 | COutside => 7
+             | CBetween => 8 | CWithin => 9 | CWithout => 10 | CContains => 11 end.
+Fixpoint hexpr_eqb (a b : hexpr) : bool :=
+  match a, b with
+  | HCond k o v, HCond k' o' v' => String.eqb k k' && Nat.eqb (cop_idx o) (cop_idx o') && jeq v v'
+  | HAnd x, HAnd y | HOr x, HOr y =>
+      (fix go (x y : list hexpr) : bool :=
+         match x, y with [], [] => true | a :: x', b :: y' => hexpr_eqb a b && go x' y' | _, _ => false end) x y
+  | HNot x, HNot y => hexpr_eqb x y
+  | HUnset, HUnset => true
+  | _, _ => false
+  end.
+Definition stmt_eqb (a b : stmt) : bool :=
+  match a, b with
+  | SV x, SV y | SE x, SE y | SIn x, SIn y | SOut x, SOut y | SBoth x, SBoth y | SInE x, SInE y | SOutE x, SOutE y
+  | SBothE x, SBothE y | SHasLabel x, SHasLabel y | SHasId x, SHasId y | SHasKey x, SHasKey y | SSelect x, SSelect y
+  | SFields x, SFields y | SDistinct x, SDistinct y => strs_eqb x y
+  | SHas x, SHas y => hexpr_eqb x y
+  | SAs x, SAs y | SUnwind x, SUnwind y => String.eqb x y
+  | SRender x, SRender y => jeq x y
+  | SPath, SPath | SCount, SCount => true
+  | SLimit x, SLimit y | SSkip x, SSkip y => N.eqb x y
+  | SRange a1 b1, SRange a2 b2 => Z.eqb a1 a2 && Z.eqb b1 b2
+  | _, _ => false
+  end.
+Definition ostmt_eqb (a b : ostmt) : bool :=
+  match a, b with
+  | OS x, OS y => stmt_eqb x y
+  | OLookup x, OLookup y => strs_eqb x y
+  | _, _ => false
+  end.
+
+Definition plan_matches (p : list stmt) (o : list ostmt) : bool := list_eqb ostmt_eqb (optimize p) o.
+
+(* what the observed plan returns on the graph, in the model; Validate's rule on the first statement applies *)
+Definition plan_outcome (g : graph) (o : list ostmt) : outcome :=
+  match o with
+  | [] => Rows []
+  | OS (SV _) :: _ | OS (SE _) :: _ | OLookup _ :: _ =>
+      match run_plan g o with Some (ty, out) => Rows (map (row_of ty) out) | None => Rejected end
+  | _ => Rejected
+  end.
+(* the plan may deliver the start rows in another order (by label, by listed id) than a scan does: behind a window in
+   the middle of a program the rows -- and how many of them later filters keep -- legitimately depend on that order,
+   as they do for any two scans; there only acceptance is compared. A window at the end (or followed by count only)
+   is compared as in C01: the count, and the rows as a sub-multiset of the unwindowed result. *)
+Definition plan_sound (g : graph) (p : list stmt) (o : list ostmt) : bool :=
+  match mode_of p with
+  | Unordered => match run g p, plan_outcome g o with Rejected, Rejected | Rows _, Rows _ => true | _, _ => false end
+  | _ => agrees {| cgraph := g; cprog := p; cobs := plan_outcome g o |}
+  end.
+
+Definition opt_strs_eqb (a b : option (list string)) : bool :=
+  match a, b with Some x, Some y => strs_eqb x y | None, None => true | _, _ => false end.
+Definition load_matches (p : list stmt) (steps : list nat) (outs : outmap) : bool :=
+  list_eqb Nat.eqb (step_ids p) steps &&
+  forallb (fun k => opt_strs_eqb (get_out k (outputs p)) (get_out k outs)) (seq 0 (S (S (List.length p)))) &&
+  forallb (fun x => Nat.leb (fst x) (S (List.length p))) outs.
+Definition load_plan_matches (p : list stmt) (steps : list nat) (outs : outmap) : bool :=
+  let o := optimize p in
+  list_eqb Nat.eqb (plan_step_ids o) steps &&
+  forallb (fun k => opt_strs_eqb (get_out k (plan_outputs o)) (get_out k outs)) (seq 0 (S (S (List.length o)))) &&
+  forallb (fun x => Nat.leb (fst x) (S (List.length o))) outs.
+
+Definition case_mismatch (c : c02_case) : bool :=
+  match c with
+  | CRows r => negb (agrees r)
+  | CPlan g p o => negb (plan_matches p o)
+  | CLoad p st o => negb (load_matches p st o)
+  | CLoadPlan p st o => negb (load_plan_matches p st o)
+  end.
+Definition case_violation (c : c02_case) : bool :=
+  match c with
+  | CRows r => negb (agrees r)
+  | CPlan g p o => negb (plan_sound g p o)
+  | CLoad p st o => negb (reads_covered p o)
+  | CLoadPlan p st o => negb (plan_reads_covered (optimize p) o)
+  end.
+
+Definition mismatches (cs : list c02_case) := idx_where case_mismatch 0 cs.
+Definition spec_violations (cs : list c02_case) := idx_where case_violation 0 cs.
+Definition known_classes (cs : list c02_case) : list nat := [].
+Definition explain (c : c02_case) :=
+  match c with
+  | CRows r => (Eval_C01.explain r, [], Rejected)
+  | CPlan g p o => ((run g p, mode_of p), optimize p, plan_outcome g o)
+  | CLoad p st o => ((Rejected, Exact), map (fun x => OLookup (snd x)) (outputs p), Rows (map (fun k => JNum (Z.of_nat k # 1)) (step_ids p)))
+  | CLoadPlan p st o => ((Rejected, Exact), optimize p ++ map (fun x => OLookup (snd x)) (plan_outputs (optimize p)),
+                         Rows (map (fun k => JNum (Z.of_nat k # 1)) (plan_step_ids (optimize p))))
+  end.
